@@ -182,6 +182,15 @@ def install():
         if isinstance(v, singleton_cls) and v.klass in rebuilt:
           v.klass = rebuilt[v.klass]
           v.instance = None
+        elif isinstance(v, _LRU_TYPE) and getattr(v, '__wrapped__', None) in rebuilt:
+          # a memoising wrapper (functools.lru_cache / cache) around a class that had to be rebuilt
+          import functools
+          params = v.cache_parameters() if hasattr(v, 'cache_parameters') else {'maxsize': None}
+          g[k] = functools.lru_cache(**params)(rebuilt[v.__wrapped__])
+          replaced.append('%s.%s(re-wrapped cache)' % (short, k))
+    for k in sorted(g.keys()):
+      if isinstance(g[k], _LRU_TYPE):
+        _caches.append(g[k])
     # print from miros code is captured (it would interleave nondeterministically)
     g['print'] = prims.sim_print
     if 'pp' in g and callable(g['pp']):
@@ -340,6 +349,9 @@ def fingerprint():
 
 
 _defaults = {}
+_caches = []          # functools caches declared at module level in miros
+import functools as _functools
+_LRU_TYPE = type(_functools.lru_cache(maxsize=None)(lambda: None))
 _containers = []      # (container object, shallow copy of its contents at install time)
 _PLAIN = (list, dict, set, collections.deque, collections.OrderedDict)
 
@@ -408,6 +420,11 @@ def reset_globals():
   """in-place reset of the process-global miros state (start of every run)"""
   _restore_containers()
   prims.reset_process_sync_objects()
+  for c in _caches:      # memoising wrappers declared in miros keep no result from one run to the next
+    try:
+      c.cache_clear()
+    except Exception:
+      pass
   ev = mods['event']
   hsm = mods['hsm']
   ao = mods['activeobject']
